@@ -11,7 +11,7 @@ python3 - <<'PY' || exit 2
 import sys; sys.path.insert(0, 'tools')
 import gen, engine
 srcs = gen.load_sources('/repo'); st = {}
-out = gen.r9_desugar_iterators(srcs, st)
+out = gen.r9_desugar_iterators(gen.r16_outline_loop_bodies(srcs, st), st)
 out, done = gen.r8_inline_new_helpers(out, engine.KNOWN_UNITS(), st)
 n = 0
 for m in srcs:
